@@ -34,7 +34,7 @@ CHECKS["C01"] = {
     "units": [
         {"name": "c01", "pkg": "c01", "run": "^Test", "shards": 8},
     ],
-    "expect_checks": ["c01.pure"],
+    "expect_checks": ["c01.pure", "c01.e2e"],
 }
 
 CHECKS["C02"] = {
@@ -47,5 +47,5 @@ CHECKS["C02"] = {
     "units": [
         {"name": "c02", "pkg": "c02", "run": "^Test", "shards": 8},
     ],
-    "expect_checks": ["c02.pure"],
+    "expect_checks": ["c02.pure", "c02.e2e"],
 }
